@@ -110,6 +110,7 @@ func runC15(c *Ctx) {
 	checkBlobPutsIdempotent(c, "writer.blob-puts-idempotent")
 	// the object store under test: an overwrite of a key (blobs shared by concurrent uploads) is never visible truncated
 	checkLocalfsPutOpens(c, c.P.Func("pkg/storage/localfs.localFS.Put"))
+	checkEffectDominance(c, "effects.dominance", concPkgs...)
 }
 
 type concGuard struct {
